@@ -162,7 +162,7 @@ func vf05Run(run *verifrt.Run, m *vfMMU, c vf05Case) {
 
 func TestVerifC05(t *testing.T) {
 	run := verifrt.Start("C05")
-	m := vfNewMMU(256, false)
+	m := vfNewMMU(2600, false)
 	restore := m.install()
 	defer restore()
 	savedCursor, savedPDT := earlyReserveLastUsed, kernelPDT
@@ -229,12 +229,41 @@ func TestVerifC05(t *testing.T) {
 		one(vf05Case{Secs: []vf05Sec{{bases[4], 4096, 2}}, Rsv: 3, FailAt: f, KOff: vf05KOff})
 		one(vf05Case{Rsv: 2, FailAt: f, KOff: vf05KOff})
 	}
+	if run.Thorough() {
+		// every single section shape with an allocation failure at every point; three-section sets over a reduced shape set
+		for _, sh := range shapes {
+			for f := 1; f <= 8; f++ {
+				one(vf05Case{Secs: []vf05Sec{{bases[0] + sh.off, sh.size, sh.flags}}, Rsv: 1, FailAt: f, KOff: vf05KOff})
+			}
+		}
+		var small []shape
+		for _, sz := range []uint64{1, 4096, 4097} {
+			for _, st := range starts {
+				for _, fl := range []uint32{0, 1, 2, 4, 7} {
+					small = append(small, shape{st, sz, fl})
+				}
+			}
+		}
+		for _, a := range small {
+			for _, b := range small {
+				for _, c3 := range small {
+					one(vf05Case{Secs: []vf05Sec{{bases[0] + a.off, a.size, a.flags}, {bases[1] + b.off, b.size, b.flags}, {bases[4] + c3.off, c3.size, c3.flags}}, Rsv: 3, KOff: vf05KOff})
+				}
+			}
+		}
+		// many-page sections
+		for _, pages := range []uint64{16, 511, 512, 513} {
+			for fl := uint32(0); fl < 8; fl++ {
+				one(vf05Case{Secs: []vf05Sec{{bases[4], pages * 4096, fl}, {bases[4] + 0x10000000 + 0x10, pages*4096 - 0x20, 7 - fl}}, Rsv: 1, KOff: vf05KOff})
+			}
+		}
+	}
 	// other kernel offsets (any P4 index below the recursive window)
 	for _, koff := range []uint64{0xffff808000000000, 0x100000} {
 		for _, sh := range shapes {
 			one(vf05Case{Secs: []vf05Sec{{koff + 0x200000 + sh.off, sh.size, sh.flags}, {koff - 0x100000 + 0x10, 100, 7}}, Rsv: 1, KOff: koff})
 		}
 	}
-	run.Finish(true, "every single section over 80 shapes (size {1,4095,4096,4097,3 pages} x start {aligned,+0x10} x all 8 W/A/X flag sets) x 5 bases (below / at / above the kernel offset, second P3 entry) x reservations {0,1,3}; section pairs (full 80x80 product in thorough, a fixed third in quick); adjacent-page triples; allocation failure at each of the first 14 allocations of 3 configurations; 3 kernel offsets",
+	run.Finish(true, "every single section over 80 shapes (size {1,4095,4096,4097,3 pages} x start {aligned,+0x10} x all 8 W/A/X flag sets) x 5 bases (below / at / above the kernel offset, second P3 entry) x reservations {0,1,3}; section pairs (full 80x80 product in thorough, a fixed third in quick); adjacent-page triples; allocation failure at each of the first 14 allocations of 3 configurations (thorough: at each of the first 8 allocations of every single-section shape; 27k three-section sets; sections of 16/511/512/513 pages); 3 kernel offsets",
 		"distinct by (mapped pages, NX pages, RW pages, reservations, sections) outcome class")
 }
